@@ -12,10 +12,13 @@ LEVEL = 'exploration'
 BUDGET_S = {'quick': 40, 'thorough': 600}
 FLOORS = {'quick': {'point_in_tile': 20000, 'shared_edges': 20000, 'flip': 10000, 'affected_required': 20000,
                     'affected_forbidden': 20000, 'affected_layout': 5000, 'level_choice': 20000,
-                    'origin_support_true': 50, 'origin_support_false': 50},
+                    'origin_support_true': 50, 'origin_support_false': 50, 'traffic_requests': 150,
+                    'monitored_affected_calls': 150, 'monitored_tile_bbox_calls': 500, 'monitored_level_calls': 100},
           'thorough': {'point_in_tile': 400000, 'shared_edges': 400000, 'flip': 200000,
                        'affected_required': 400000, 'affected_forbidden': 400000, 'affected_layout': 100000,
-                       'level_choice': 400000, 'origin_support_true': 1000, 'origin_support_false': 1000}}
+                       'level_choice': 400000, 'origin_support_true': 1000, 'origin_support_false': 1000,
+                       'traffic_requests': 4000, 'monitored_affected_calls': 4000, 'monitored_tile_bbox_calls': 12000,
+                       'monitored_level_calls': 2500}}
 RULE = ("case = one generated grid (srs, bbox class, tile size, resolution ladder class, origin, stretch) probed "
         "with points (uniform, on tile edges, one ulp beside edges, corners), rectangles (inside, touching edges "
         "exactly, overlapping by +-{0,.05,.1,.11,1} px, across the grid border, far outside) and resolutions (on, "
@@ -138,6 +141,9 @@ def gen_cases(run):
     n = run.pick(1600, 40000)
     for i in range(n):
         yield {'kind': 'grid', 'i': i}
+    # call monitor: the model judges the arguments that real request traffic passes to the grid API
+    for i in range(run.pick(60, 1500)):
+        yield {'kind': 'traffic', 'i': i}
 
 
 def nxt(v, k=1):
@@ -340,6 +346,16 @@ class Probe(object):
                 except Exception as ex:
                     self.bad('affected', 'get_affected_level_tiles(%r, %d) raised %r' % (rect, z, ex), obs='exception')
                     continue
+                self.judge_affected(kind, rect, z, abbox, cx, cy, tiles)
+
+    def judge_affected(self, kind, rect, z, abbox, cx, cy, tiles):
+        g, m = self.g, self.m
+        res = fr(g.resolution(z))
+        tau = res / 1000
+        inset = res / 10 + tau
+        nx, ny = g.grid_sizes[z]
+        for _once in (1,):
+            for _once2 in (1,):
                 listed = set(t for t in tiles if t is not None)
                 nontriv = kind in ('edges', 'border', 'bbox')
                 # layout: count, order, None positions, reported bbox
@@ -487,7 +503,151 @@ class Probe(object):
                 self.bad('cover', 'level %d: last row/column lies outside the grid' % z)
 
 
+class CallMonitor(object):
+    """wraps TileGrid.tile / tile_bbox / get_affected_level_tiles / closest_level; every call made by the code under
+    test while a request is served is judged by the exact model of the grid it was made on"""
+
+    def __init__(self, run, case):
+        self.run = run
+        self.case = case
+        self.probes = {}
+        self.active = False
+        self.busy = False
+
+    def probe(self, grid):
+        p = self.probes.get(id(grid))
+        if p is None:
+            spec = {'srs': grid.srs.srs_code, 'bclass': 'traffic', 'tile_size': list(grid.tile_size), 'lclass': 'traffic',
+                    'stretch': grid.stretch_factor, 'floor_res': 0.0, 'bbox': list(grid.bbox)}
+            p = Probe(self.run, self.case, spec, grid)
+            self.probes[id(grid)] = p
+        return p
+
+    def install(self):
+        from mapproxy.grid import TileGrid
+        mon = self
+        orig = {n: getattr(TileGrid, n) for n in ('tile', 'tile_bbox', 'get_affected_level_tiles', 'closest_level')}
+        self.orig = orig
+
+        def tile(g, x, y, level):
+            t = orig['tile'](g, x, y, level)
+            if mon.active and not mon.busy and g.bbox[0] <= x <= g.bbox[2] and g.bbox[1] <= y <= g.bbox[3]:
+                mon.busy = True
+                try:
+                    p = mon.probe(g)
+                    bb = orig['tile_bbox'](g, t)
+                    tau = fr(g.resolution(level)) / 1000
+                    mon.run.hit('monitored_tile_calls')
+                    mon.run.judge((p.shape, 'mon_tile'), nontrivial=True)
+                    if not ((fr(bb[0]) - tau <= fr(x) <= fr(bb[2]) + tau) and (fr(bb[1]) - tau <= fr(y) <= fr(bb[3]) + tau)):
+                        p.bad('point_in_tile', 'traffic: tile(%r, %r, %r) = %r with bbox %r' % (x, y, level, t, bb), cls='traffic')
+                finally:
+                    mon.busy = False
+            return t
+
+        def tile_bbox(g, coord, limit=False):
+            bb = orig['tile_bbox'](g, coord, limit)
+            if mon.active and not mon.busy and not limit and coord is not None:
+                mon.busy = True
+                try:
+                    p = mon.probe(g)
+                    z = coord[2]
+                    if isinstance(z, int) and 0 <= z < g.levels:
+                        mr = p.m.tile_rect(coord[0], coord[1], z)
+                        tau = fr(g.resolution(z)) / 1000
+                        mon.run.hit('monitored_tile_bbox_calls')
+                        mon.run.judge((p.shape, 'mon_tile_bbox'), nontrivial=True)
+                        if any(abs(fr(a) - b_) > tau for a, b_ in zip(bb, mr)):
+                            p.bad('point_in_tile', 'traffic: tile_bbox(%r) = %r, model %r' % (coord, bb, tuple(float(v) for v in mr)),
+                                  cls='traffic', rect_ok=False)
+                finally:
+                    mon.busy = False
+            return bb
+
+        def get_affected_level_tiles(g, bbox, level):
+            r = orig['get_affected_level_tiles'](g, bbox, level)
+            if mon.active and not mon.busy:
+                abbox, (cx, cy), it = r
+                tiles = list(it)
+                r = (abbox, (cx, cy), iter(tiles))
+                res = g.resolution(level)
+                if bbox[2] - bbox[0] >= res and bbox[3] - bbox[1] >= res and cx * cy <= 400:
+                    mon.busy = True
+                    try:
+                        mon.run.hit('monitored_affected_calls')
+                        mon.probe(g).judge_affected('traffic', tuple(bbox), level, abbox, cx, cy, tiles)
+                    finally:
+                        mon.busy = False
+            return r
+
+        def closest_level(g, res):
+            lvl = orig['closest_level'](g, res)
+            if mon.active and not mon.busy and not g.threshold_res:
+                mon.busy = True
+                try:
+                    p = mon.probe(g)
+                    want, dc = p.m.closest_level(res, g.stretch_factor)
+                    if dc:
+                        mon.run.dc('level_threshold_within_1e-12')
+                    else:
+                        mon.run.hit('monitored_level_calls')
+                        mon.run.judge((p.shape, 'mon_level'), nontrivial=True)
+                        if lvl != want:
+                            p.bad('level_choice', 'traffic: closest_level(%r)=%r, rule says %r' % (res, lvl, want), cls='traffic')
+                finally:
+                    mon.busy = False
+            return lvl
+        TileGrid.tile = tile
+        TileGrid.tile_bbox = tile_bbox
+        TileGrid.get_affected_level_tiles = get_affected_level_tiles
+        TileGrid.closest_level = closest_level
+
+    def uninstall(self):
+        from mapproxy.grid import TileGrid
+        for n, f in self.orig.items():
+            setattr(TileGrid, n, f)
+
+
+def run_traffic(run, case):
+    """a small map/tile workload on a generated cache (configurations of C04) with the call monitor attached"""
+    import shutil
+    from checks import c04
+    from vlib import upstream
+    rng = run.rng('traffic', case['i'])
+    spec = case.get('spec') or c04.gen_conf(rng)
+    d = run.subdir('c03t')
+    mon = CallMonitor(run, case)
+    mon.install()
+    try:
+        try:
+            sc, grid, lat = c04.build(run, spec, d)
+        except Exception:
+            run.dc('config_rejected_by_loader')
+            return
+        mon.active = True
+        srs = spec['grid']['srs']
+        b = grid.bbox
+        for _ in range(8):
+            z = rng.randrange(grid.levels)
+            res = grid.resolution(z) * rng.choice([1.0, 1.0, 0.7, 1.3, 2.1, 0.4])
+            w, h = rng.randint(20, 300), rng.randint(20, 300)
+            cx = b[0] + rng.random() * (b[2] - b[0])
+            cy = b[1] + rng.random() * (b[3] - b[1])
+            bbox = (cx - res * w / 2, cy - res * h / 2, cx + res * w / 2, cy + res * h / 2)
+            sc.get('/service?SERVICE=WMS&VERSION=1.1.1&REQUEST=GetMap&LAYERS=l&STYLES=&SRS=%s&BBOX=%s&WIDTH=%d&HEIGHT=%d&FORMAT=image/png' % (
+                srs, ','.join(repr(v) for v in bbox), w, h))
+            run.hit('traffic_requests')
+        mon.active = False
+        upstream.UP.reset_log()
+    finally:
+        mon.active = False
+        mon.uninstall()
+        shutil.rmtree(d, ignore_errors=True)
+
+
 def run_case(run, case):
+    if case.get('kind') == 'traffic':
+        return run_traffic(run, case)
     rng = run.rng('grid', case['i'])
     spec = case.get('spec') or gen_grid_spec(rng)
     try:
